@@ -74,7 +74,8 @@ def cases(ctx):
         wrap = (None, None) if (presorted or rng.random() < 0.75) else (rng.choice(WRAPS), rng.choice(WRAPS))
         yield {'a': a, 'b': b, 'strict': rng.random() < 0.4, 'presorted': presorted, 'perm': perm,
                'tuples': (rng.random() < 0.5, rng.random() < 0.5), 'wrap': wrap,
-               'buffersize': None if (presorted or rng.random() < 0.88) else rng.choice([1, 1, 2, 3])}
+               'buffersize': None if (presorted or rng.random() < 0.88) else rng.choice([1, 1, 2, 3]),
+               'method': rng.random() < 0.2}       # etl.wrap(a).complement(b) etc.: the fluent form is the same operator
 
 
 def _cnt(rows):
@@ -205,17 +206,27 @@ def judge(case, ctx):
     if case['presorted']:
         ctx.seen('presorted')
     sk = {'strict': True} if strict else {}
+
+    class _P(object):
+        # function form, or (case['method']) the method form on a wrapped first argument
+        def __getattr__(self, name):
+            if not case.get('method'):
+                return getattr(petl, name)
+            return lambda t, *a_, **k_: getattr(petl.wrap(t), name)(*a_, **k_)
+    P = _P()
+    if case.get('method'):
+        ctx.seen('method-form')
     a, b = tables()
-    comp = check('complement', lambda: petl.complement(a, b, **pk, **sk), hdr_a, exp_comp, arows_strict)
+    comp = check('complement', lambda: P.complement(a, b, **pk, **sk), hdr_a, exp_comp, arows_strict)
     a, b = tables()
-    inter = check('intersection', lambda: petl.intersection(a, b, **pk), hdr_a, exp_int, arows_strict)
+    inter = check('intersection', lambda: P.intersection(a, b, **pk), hdr_a, exp_int, arows_strict)
     a, b = plain()
     a_order = [tuple(r) for r in util.rows_of(a)[1:]] if wa else ra      # the order in which the (view) input a delivers its rows
-    check('hashcomplement', lambda: petl.hashcomplement(a, b, **sk), hdr_a, exp_comp, arows_strict, order_of=a_order)
+    check('hashcomplement', lambda: P.hashcomplement(a, b, **sk), hdr_a, exp_comp, arows_strict, order_of=a_order)
     a, b = plain()
-    check('hashintersection', lambda: petl.hashintersection(a, b), hdr_a, exp_int, arows_strict, order_of=a_order)
+    check('hashintersection', lambda: P.hashintersection(a, b), hdr_a, exp_int, arows_strict, order_of=a_order)
     a, b = tables()
-    dres = util.attempt(lambda: petl.diff(a, b, **pk, **sk))
+    dres = util.attempt(lambda: P.diff(a, b, **pk, **sk))
     if isinstance(dres, util.Raised):
         out.append({'kind': 'exception', 'fn': 'diff', 'detail': dres.text, 'where': dres.where})
     else:
@@ -237,8 +248,8 @@ def judge(case, ctx):
         bsrc_strict = Counter(util.crow([r[i] for i in perm] if perm else r) for r in rb)
         bperm_hdr = tuple(bp[0])
         bk = {'buffersize': case['buffersize']} if case.get('buffersize') is not None else {}
-        check('recordcomplement', lambda: petl.recordcomplement(a, b, **sk, **bk), hdr_a, exp_comp, arows_strict)
-        rres = util.attempt(lambda: petl.recorddiff(a, b, **sk, **bk))
+        check('recordcomplement', lambda: P.recordcomplement(a, b, **sk, **bk), hdr_a, exp_comp, arows_strict)
+        rres = util.attempt(lambda: P.recorddiff(a, b, **sk, **bk))
         if isinstance(rres, util.Raised):
             out.append({'kind': 'exception', 'fn': 'recorddiff', 'detail': rres.text, 'where': rres.where})
         else:
